@@ -1,6 +1,7 @@
 package main
 
 import (
+	"context"
 	"encoding/json"
 	"fmt"
 	"os"
@@ -158,6 +159,18 @@ func runObligations(obls []*Obligation, o RunOpts) {
 						r2.Ms += r.Ms
 						r = r2
 						ob.Note = "decided on the quantifier-free part of the assumptions"
+					}
+				}
+				if !ob.WantSat && r.Status == "unsat" && reachKind(ob.Kind) && ob.PC != "true" {
+					// vacuity guard: the point must be reachable (else a contradiction among the assumptions makes
+					// everything provable there)
+					rr := runOne(context.Background(), findSolver("z3-new"), ob.Unit.ReachQuery(ob), nil, 3000)
+					r.Ms += rr.Ms
+					if rr.Status == "unsat" {
+						ob.Vacuous = true
+						r.Status = "unknown"
+						r.Raw = "VACUOUS: the assumptions on the path to this obligation are contradictory (quantifier-free part already unsat)"
+						ob.Note = "vacuous: unreachable under the assumptions"
 					}
 				}
 				ob.Result = &r
@@ -395,4 +408,9 @@ func clipStr(s string, n int) string {
 		return s[:n] + "…"
 	}
 	return s
+}
+
+// reachKind: obligation kinds whose program point gets a reachability (vacuity) query.
+func reachKind(kind string) bool {
+	return kind == "post" || kind == "loop" || strings.HasPrefix(kind, "call.") || strings.HasPrefix(kind, "inv.") || strings.HasPrefix(kind, "guard.") || strings.HasPrefix(kind, "go.") || strings.HasPrefix(kind, "block.")
 }
